@@ -106,7 +106,8 @@ def current_obligation(cfg, pid, body):
     with open(f, "w") as fh:
         fh.write("(* generated on every run from the access trace of the running code *)\n")
         fh.write("From Coq Require Import ZArith List NArith.\nFrom CB Require Import Machine.\nImport ListNotations.\n")
-        fh.write("Definition current_cfg : cfg := %s.\n" % coq_cfg(cfg))
+        if cfg is not None:
+            fh.write("Definition current_cfg : cfg := %s.\n" % coq_cfg(cfg))
         fh.write(body)
     p = c.sh(["timeout", "900", "coqc", "-noglob", "-Q", c.COQ, "CB", f], cwd=d, timeout=1000, check=False)
     return p.returncode == 0, p.stdout[-3000:]
@@ -191,8 +192,10 @@ def walk(tokens, obs):
         yield t, items
 
 
-def judge(tokens, out, want):
-    """Oracles on the implementation's observations (independent of the model)."""
+def judge(tokens, out, want, ra=False):
+    """Oracles on the implementation's observations (independent of the model).  ra: the schedule
+    contains loads that return older stores (release/acquire executions): real-time freshness is
+    not promised there, everything else is."""
     obs = parse_obs(out)
     bad = []
     completed = 0          # publications completed so far
@@ -263,7 +266,7 @@ def judge(tokens, out, want):
                     if it["ret"] == "F":
                         cached_gen[j] = cj.get("lastg")
                     aba = it["ret"] == "C" and cj.get("g1") is not None and cj.get("g1") == cached_gen.get(j)
-                    if want == "C03":
+                    if want == "C03" and not ra:
                         # documented exception: the live generation coincides with the cached one
                         if not aba and not cj["writer_moved"] and not cj["in_flight_at_entry"] and not in_flight and k != completed:
                             bad.append("reader %d returned publication %d although %d was complete and the writer idle during the call" % (j, k, completed))
@@ -300,6 +303,47 @@ def gen_schedule(rng, kind):
     for j in range(nread):
         toks += [("R", j, None)] * 14
     return toks
+
+
+def gen_ra(rng):
+    """Release/acquire executions: a reader's load may return an older store (R j k, k = index of
+    the store in the writer's log).  Candidates only: the model is asked which choices are legal
+    (clean_ra) before the real reader is run on them under the engine's simulated memory."""
+    nread = rng.choice([1, 1, 2])
+    toks = [("W",)] * 11 + [("N",)] * nread
+    nlog = 10 + 9                       # init log + version store + one publication
+    for _ in range(rng.randrange(8, 40)):
+        if rng.random() < 0.45:
+            k = rng.choice([1, 2, 3, 5, 11, 11])
+            toks += [("W",)] * k
+            nlog += k                   # upper estimate (loads and fences store nothing)
+        else:
+            j = rng.randrange(nread)
+            for _ in range(rng.choice([1, 2, 5, 13])):
+                if rng.random() < 0.55:
+                    toks.append(("R", j, None))
+                else:
+                    # a few candidates for this load: only the legal one on the right location survives
+                    for _ in range(3):
+                        toks.append(("R", j, max(0, nlog - 1 - rng.randrange(0, 30))))
+    for j in range(nread):
+        toks += [("R", j, None)] * 14
+    return toks
+
+
+def clean_ra(cfg, scheds):
+    """drop the R tokens whose choice the machine refuses (not an event on the location being
+    loaded, or not readable by that reader now): a refused token leaves the machine unchanged"""
+    outs = c.run_model([line_of(cfg, s) for s in scheds], timeout=1800)
+    cleaned = []
+    for s, out in zip(scheds, outs):
+        keep = []
+        for t, items in walk(s, parse_obs(out)):
+            if t[0] == "R" and items and items[0]["t"] == "X":
+                continue
+            keep.append(t)
+        cleaned.append(keep)
+    return cleaned
 
 
 def gen_wrap(rng):
@@ -388,6 +432,29 @@ def run_property(pid, res, proofs_ok, proofs_why, extra_part=None):
     res.trusted_base += ["shim (clock-bound-shm/src/verif.rs): every atomic access and every 8-byte cell of the record copy is announced before it is performed",
                          "engine (harness/src/engine.rs): one OS thread per writer/reader, exactly one thread runs between two announcements",
                          "single-writer release/acquire machine of Shm/Machine.v as the model of the Rust/C11 memory model for this protocol; plain record accesses treated as relaxed per 8-byte cell"]
+    # release/acquire executions on the real reader: the engine's simulated memory hands the loads of
+    # the real snapshot() the older stores the machine allows
+    ra = clean_ra(cfg, [gen_ra(rng) for _ in range(n // 5)])
+    ra_lines = [line_of(cfg, s) for s in ra]
+    ra_impl = c.run_lines(binary, ra_lines, timeout=1800)
+    ra_model = c.run_model(ra_lines, timeout=1800)
+    res.evaluations += len(ra_lines)
+    ra_diffs, stale = [], 0
+    for s, ln, i, m in zip(ra, ra_lines, ra_impl, ra_model):
+        res.count("gen:release/acquire choices")
+        nstale = sum(1 for t in s if t[0] == "R" and t[2] is not None)
+        stale += nstale
+        if nstale:
+            res.nontriv(ln)
+        if i != m:
+            ra_diffs.append({"schedule": tok_str(s), "impl": i, "model": m})
+        why = judge(s, i, pid, ra=True)
+        if why:
+            bad.append({"schedule": tok_str(s), "impl": i, "model": m, "why": why + ["(release/acquire execution: R j k = the load returned store k of the log)"]})
+    res.extra["ra_loads_returning_an_older_store"] = stale
+    res.traces_validated += len(ra_lines) - len(ra_diffs)
+    res.oblige("correspondence:real snapshot() under simulated memory vs Machine.m_run on release/acquire executions (loads returning older stores the machine allows)", not ra_diffs)
+    diffs += ra_diffs
     if extra_part:
         bad += extra_part(res, cfg, binary, rng) or []
     if bad:
@@ -432,6 +499,6 @@ def replay_property(pid, res, path):
     toks = parse_tok_str(sched)
     ln = line_of(cfg, toks)
     i, m = c.run_lines(binary, [ln])[0], c.run_model([ln])[0]
-    why = judge(toks, i, pid)
+    why = judge(toks, i, pid, ra=any(t[0] == "R" and t[2] is not None for t in toks))
     print("schedule %s\nimpl  %s\nmodel %s\npredicate: %s" % (sched, i, m, why or "holds"))
     return 1 if (why or i != m) else 0
